@@ -116,7 +116,7 @@ func randomMessage(rng *sx.Rng, ps int) [][][]byte {
 }
 
 // runTx: channels with the given (id, nr0); operations in the given order from one goroutine; output = the transport writes.
-func runTx(out *sx.Out, ps int, ids, nr0 []int, ops []txop, tag string) {
+func runTx(out caser, ps int, ids, nr0 []int, ops []txop, tag string) {
 	e := newEnv(1000, true)
 	defer e.shutdown()
 	e.autoAck()
@@ -150,7 +150,7 @@ func runTx(out *sx.Out, ps int, ids, nr0 []int, ops []txop, tag string) {
 		ch := byId[o.id]
 		if o.kind == 3 {
 			e.pc.Feed(packSizePacket(o.id, o.size))
-			if !e.pc.WaitIdle(watchdog) {
+			if !e.waitIdle() {
 				failed = true
 				break
 			}
@@ -202,9 +202,9 @@ func packSizePacket(channel, size int) []byte {
 	return wirePacket(4, 1, channel, 0, 0, body)
 }
 
-func genTx(rng *sx.Rng, out *sx.Out, n int) {
+func genTx(rng *sx.Rng, out caser, n int) {
 	sizes := []int{512, 512, 16, 9, 64, 2048, 600}
-	for k := 0; k < n; k++ {
+	for k := 0; k < n && !tooManyHangs(); k++ {
 		nch := rng.Range(1, 16)
 		if k%5 == 0 {
 			nch = rng.Range(1, 3)
@@ -284,7 +284,7 @@ func (a answer) wire() []byte {
 	return wirePacket(a.typ, 1, a.channel, 0, 0, []byte{0x71, 5}) // LOGOUT with an option: "unhandled logout option"
 }
 
-func runSetup(out *sx.Out, answers []answer, expectWait bool, tag string) {
+func runSetup(out caser, answers []answer, expectWait bool, tag string) {
 	e := newEnv(1000, true)
 	defer e.shutdown()
 	ch0, err, ok := e.newChannel()
@@ -360,7 +360,7 @@ func runSetup(out *sx.Out, answers []answer, expectWait bool, tag string) {
 
 // genSetup: irrelevant packets (for channel 0) first, then at most ONE packet that ends the wait, then anything:
 // the outcome does not depend on how far NewChannel got when the packets arrive.
-func genSetup(rng *sx.Rng, out *sx.Out, n int) {
+func genSetup(rng *sx.Rng, out caser, n int) {
 	run := func(relevant *answer, tag string) {
 		var as []answer
 		for i := 0; i < rng.Intn(3); i++ {
